@@ -5,6 +5,7 @@ import RpmVerif.Model.Accessors
 import RpmVerif.Lemmas.WithFile
 import RpmVerif.Spec.FileOptions
 import RpmVerif.Lemmas.ValidCalls
+import RpmVerif.Lemmas.ValidWeight
 /-!
 # C06 — everything given to the builder is read back unchanged
 
@@ -1172,6 +1173,31 @@ theorem valid_of_inputs (sha256 : Bytes → Bytes) (valid : Bytes → Bool) (nam
   omega
 
 
+
+/-- **`Valid` from the arguments alone** (the header-size bound in INPUT lengths): as `valid_of_inputs`, with the weight of the
+state replaced by what the caller wrote — the five strings of `new` and, per call, `Call.weight`: the strings of a metadata
+setter (+ 4 per dependency / changelog entry), for `with_file` twice the destination, the option strings and 128 — summing below
+10.5 MB. (A value that a later call overwrites still counts: the bound is on the calls, not on the state.) -/
+theorem valid_of_args (sha256 : Bytes → Bytes) (valid : Bytes → Bool) (name version license arch summary : Bytes)
+    (dc : Bld.Comp) (calls : List Build.Call) (s : St)
+    (hnew : RustStr name ∧ RustStr version ∧ RustStr license ∧ RustStr arch ∧ RustStr summary)
+    (hcalls : ∀ c ∈ calls, c.ArgsOk)
+    (hrun : run (Sign.shaHex sha256) valid calls (St.new name version license arch summary dc) = .ok s)
+    (now : Nat) (hnow : now < 4294967296) (payload archive : Bytes) (hdig : ∀ b, (sha256 b).length ≤ 32)
+    (hmem : (s.fes.map (·.2.length)).sum < 18446744073709551616)
+    (hsize : strW name + strW version + strW license + strW arch + strW summary + 2 + (calls.map Build.Call.weight).sum < 10500000) :
+    Valid (mkCtx s.cfg now (Sign.shaHex sha256 payload) (Sign.shaHex sha256 archive)) := by
+  refine valid_of_inputs sha256 valid name version license arch summary dc calls s hnew hcalls hrun now hnow payload archive hdig hmem ?_
+  have hsha : ∀ b, (Sign.shaHex sha256 b).length ≤ 64 := fun b => by
+    have := Build.hexLower_length (sha256 b); have := hdig b
+    show (Digest.hexLower (sha256 b)).length ≤ 64
+    omega
+  have hw := run_weight hsha hrun
+  obtain ⟨hf, hd⟩ := run_base_nofiles hrun
+  rw [cfgWeight_cfg s (by rw [hf]; rfl) (by rw [hd]; rfl)]
+  rw [stWeight_new] at hw
+  omega
+
 /-! ### non-vacuity -/
 section
 open RpmVerif.WithFile RpmVerif.Utf8
@@ -1212,6 +1238,8 @@ example : ∀ c ∈ inputCalls, c.ArgsOk := by
 example : ((run (Sign.shaHex (fun _ => List.replicate 32 7)) (fun _ => true) inputCalls (St.new [195, 188] [49] [77] [120] [115] .none)).toOption.map
     fun s => (decide ((s.fes.map (·.2.length)).sum < 18446744073709551616), decide (cfgWeight s.cfg < 10500000), s.fes.length, s.dirs)) =
     some (true, true, 2, [[47], [47, 195, 188, 47]]) := by decide +kernel
+-- … and so is what the caller wrote (`valid_of_args`)
+example : strW [195, 188] + strW [49] + strW [77] + strW [120] + strW [115] + 2 + (inputCalls.map Build.Call.weight).sum < 10500000 := by decide +kernel
 -- the NUL condition is needed: a name with a NUL gives a record that does not survive encode → decode
 example : ¬ Valid ⟨Cfg.new [97, 0, 98] [49] [] [] [] .none, 0, [], []⟩ := fun v => by
   have : ¬ ∀ r ∈ recordsOf ⟨Cfg.new [97, 0, 98] [49] [] [] [] .none, 0, [], []⟩, r.2.Canon := by decide +kernel
